@@ -278,6 +278,15 @@ func c14ReqStorageLoad(v ssa.Value) *ssa.UnOp {
 				v = x.Call.Args[1]
 				continue
 			}
+		case *ssa.UnOp:
+			// a local alias of req.Storage that lives in a memory cell (because a closure
+			// captures it): the one value ever stored into the cell
+			if a, ok := x.X.(*ssa.Alloc); ok && x.Op == token.MUL {
+				if sv := c14SoleStore(a); sv != nil {
+					v = sv
+					continue
+				}
+			}
 		}
 		break
 	}
@@ -296,6 +305,53 @@ func c14ReqStorageLoad(v ssa.Value) *ssa.UnOp {
 		return nil
 	}
 	return u
+}
+
+// c14SoleStore: the value of the only store ever made into the local cell a
+// (in its function or, through a captured variable, in a nested closure); nil
+// if there is none, more than one, or the cell's address escapes otherwise.
+func c14SoleStore(a *ssa.Alloc) ssa.Value {
+	if a.Referrers() == nil {
+		return nil
+	}
+	var val ssa.Value
+	n := 0
+	for _, r := range *a.Referrers() {
+		switch x := r.(type) {
+		case *ssa.Store:
+			if x.Addr != ssa.Value(a) {
+				return nil // the address itself is stored somewhere
+			}
+			n++
+			val = x.Val
+		case *ssa.UnOp, *ssa.DebugRef:
+		case *ssa.MakeClosure:
+			fn, _ := x.Fn.(*ssa.Function)
+			if fn == nil {
+				return nil
+			}
+			for i, bnd := range x.Bindings {
+				if bnd != ssa.Value(a) || i >= len(fn.FreeVars) {
+					continue
+				}
+				if refs := fn.FreeVars[i].Referrers(); refs != nil {
+					for _, fr := range *refs {
+						switch fr.(type) {
+						case *ssa.UnOp, *ssa.DebugRef:
+						default:
+							return nil // written, re-captured or escaping inside the closure
+						}
+					}
+				}
+			}
+		default:
+			return nil
+		}
+	}
+	if n != 1 {
+		return nil
+	}
+	return val
 }
 
 // c14PathKeys: the values data.Get("path").(string) of a handler.
@@ -620,9 +676,13 @@ func c14TxnRules(c *eng.Ctx, h *c14Handler, acc []c14Access) {
 				c.Violation(f, site, a.call.Pos(), a.name+" is given "+eng.ExprDeep(op)+" instead of the request's (transaction-switched) req.Storage: this access bypasses the transaction", nil)
 				continue
 			}
-			if hh := eng.Reach(eng.Query{Fn: f, Barriers: taIfs, Target: func(in ssa.Instruction) bool { return in == ssa.Instruction(ld) }}); hh != nil {
+			isLd := func(in ssa.Instruction) bool { return in == ssa.Instruction(ld) }
+			if hh := eng.Reach(eng.Query{Fn: f, Barriers: taIfs, Target: isLd}); hh != nil {
 				bad++
 				c.Violation(f, site, a.call.Pos(), a.name+" uses a copy of req.Storage taken before the transaction was begun (the original, non-transactional storage): this access bypasses the transaction", nil)
+			} else if hh := eng.Reach(eng.Query{Fn: f, StartEdges: txEdges, Barriers: switches, Target: isLd}); hh != nil && len(switches) > 0 {
+				bad++
+				c.Violation(f, site, a.call.Pos(), a.name+" uses a copy of req.Storage taken on transactional storage before req.Storage was switched to the transaction: this access bypasses the transaction", nil)
 			}
 		}
 	}
